@@ -11,6 +11,7 @@
  *      memory    xmp_test_module_from_memory    / xmp_load_module_from_memory
  *      callbacks xmp_test_module_from_callbacks / xmp_load_module_from_callbacks
  * and checked:
+ *   vocab   both return values are 0 or a documented error code (-FORMAT, -LOAD, -DEPACK, -SYSTEM, -INVALID)
  *   rc      test = 0 <-> load in {0, -LOAD, -SYSTEM}; test = -FORMAT <-> load = -FORMAT; otherwise equal
  *           (file pair: only when libxmp_decrunch leaves the stream alone, i.e. a non-container input)
  *   strings test failed: name and type empty; test ok: both NUL-terminated inside their 64 bytes
@@ -606,6 +607,19 @@ static void run_variant(const char *vname, const unsigned char *data, long size,
 					printf("-");
 				printf("\n");
 			}
+		}
+
+		/* vocabulary: every entry point answers 0 or one of the documented error codes, never any other value */
+		{
+			static const int vocab[] = { 0, -XMP_ERROR_FORMAT, -XMP_ERROR_LOAD, -XMP_ERROR_DEPACK, -XMP_ERROR_SYSTEM,
+						     -XMP_ERROR_INVALID };
+			int k, tin = 0, lin = 0;
+			for (k = 0; k < (int)(sizeof(vocab) / sizeof(vocab[0])); k++) {
+				tin |= trc == vocab[k];
+				lin |= lrc == vocab[k];
+			}
+			if (!tin || !lin)
+				printf("V vocab %s %s test=%d load=%d\n", vname, pair_name[pair], trc, lrc);
 		}
 
 		/* title */
